@@ -3,6 +3,7 @@ from core import Case
 from . import wiregen as W
 
 ID = "C06"
+SPEC_IS_ORACLE = lambda c: c.cmd == "RUN"  # handle-level cases: the model is the closed form of the property
 THEOREMS = [
     "Portus.C06.changeprog_read_by_libccp", "Portus.C06.updatefield_read_by_libccp",
     "Portus.C06.install_read_by_libccp", "Portus.C06.header_len_honest_cp", "Portus.C06.header_len_honest_in",
@@ -55,6 +56,9 @@ def upd_list(rng, n, ok_only=True):
 
 def gen(ctx):
     rng = ctx.rng
+    from . import rtgen as R
+    for a in R.boundary_update_cases():
+        yield Case("RUN", a, tags=("handle-limits",))
     # exhaustive register table as single updates
     for c in CLASSES:
         for i in range(256):
@@ -100,4 +104,6 @@ def nontrivial(c, r):
 
 
 def oracle(c, impl_res):
+    if c.cmd != "ENC":
+        return None  # handle-level cases (RUN) are decided by the correspondence with the model's closed form
     return ("ORC", "C06 %s @@ %s" % (c.args, impl_res))
